@@ -82,8 +82,7 @@ Proof.
 Qed.
 
 Definition no_own_algebra (c : vcase) : bool :=
-  forallb (fun g => match g_kind g with GDupPrefix => false | _ => true end
-                    && match g_vars g with [] => true | _ => false end) c.
+  forallb (fun g => match g_vars g with [] => true | _ => false end) c.
 
 Lemma model_same_algebra c : no_own_algebra c = true -> spec_ok15 c (model_obs15 c) = true.
 Proof.
@@ -91,8 +90,7 @@ Proof.
   - unfold model_obs15. apply map_length.
   - intros l I. unfold model_obs15 in I. apply in_map_iff in I as [g [<- Ig]].
     unfold no_own_algebra in H. rewrite forallb_forall in H. specialize (H g Ig).
-    apply andb_true_iff in H as [H0 H].
-    unfold group_model. destruct (g_kind g); try discriminate; try reflexivity.
+    unfold group_model. destruct (g_kind g); try reflexivity.
     destruct (g_vars g); [|discriminate]. cbn.
     apply forallb_forall. intros y Iy. apply repeat_spec in Iy. subst. apply obs_eqb_refl.
 Qed.
